@@ -1,6 +1,6 @@
 (* PipelineProofs.v — theorems about kiki::generate as a whole. *)
 From Coq Require Import List Arith Lia Bool Permutation.
-From Kiki Require Import Base.Ord Base.Chars Data Oset.Model Lex.Model LR.Driver LR.Grammar LR.Inv LR.Complete LR.Sound LR.ErrPos LR.Viable LR.Least
+From Kiki Require Import Base.Ord Base.Chars Data Oset.Model Lex.Model LR.Driver LR.Grammar LR.Inv LR.Complete LR.Sound LR.ErrPos LR.Viable LR.Least LR.CanonLR1
   LR.Validate LR.ValidateProofs Front.Parse Front.FrontProofs Ast.Validate Ast.WF Ast.ValidateProofs Ast.VWF Ast.Truthful
   Build.Machine Build.DetProofs Build.Table Build.TableProofs Build.FillProofs Build.TableSpec Build.GenCorrect Np Build.NoPanic
   Emit.Emit Emit.Hash Emit.HashProofs Emit.Parser Emit.NoPanic Pipeline.
@@ -144,6 +144,31 @@ Theorem emitted_annotation_is_exact ho digest src out text :
 Proof.
   intros Hho H. destruct (generate_tables_invariants ho digest src out text Hho H) as (pt & ann & ft & HP & A & _ & _ & _ & E).
   exists pt, ann, ft. split; [exact HP|]. apply exact_of_closed_and_least; assumption.
+Qed.
+
+(* C17/C04: ... and that is the textbook LALR(1) automaton: every state is the merge of the
+   canonical LR(1) item sets I(g) (g a viable prefix leading to the state), all of which have
+   exactly the state's core (LR/CanonLR1.v) *)
+Lemma fseq_any_ft ft b la a la' : fseq ft b la a -> exists a', fseq ft b la' a'.
+Proof.
+  intros H. apply fseq_elim in H. unfold cands in H. apply in_app_or in H as [H|H].
+  - exists a. apply fseq_intro. unfold cands. apply in_or_app. left. exact H.
+  - exists la'. apply fseq_intro. unfold cands. apply in_or_app. right.
+    destruct (nullable_seq ft b); [left; reflexivity|contradiction].
+Qed.
+
+Theorem emitted_states_are_merged_canonical_LR1 ho digest src out text :
+  perm_hash_order ho -> generate_full ho digest src = Ok (out, text) ->
+  exists pt (ann : list (list Grammar.item)) (ft : first_table),
+    ptable_of (go_file out) (go_table out) = Some pt /\
+    (forall s it, In_state ann it s <-> exists g, path pt g s /\ valid1 pt (fseq ft) g it) /\
+    (forall g s, path pt g s -> forall it, In_state ann it s ->
+                 exists it', valid1 pt (fseq ft) g it' /\ same_core_item it it').
+Proof.
+  intros Hho H. destruct (generate_tables_invariants ho digest src out text Hho H) as (pt & ann & ft & HP & A & B & _ & _ & E).
+  exists pt, ann, ft. split; [exact HP|]. split.
+  - intros s it. apply merged_lookaheads; assumption.
+  - intros g s Hp it Hin. apply (same_core pt ann (fseq ft) A E B (fseq_any_ft ft) g s Hp it Hin).
 Qed.
 
 (* ---------- C07: after the front end, nothing can panic ---------- *)
